@@ -597,7 +597,9 @@ struct Visitor : RecursiveASTVisitor<Visitor> {
     if (!fileOk(ED->getLocation(), *U.recRe, file, line)) return true;
     if (ED->isDependentContext()) return true;
     if (!U.seenEnum.insert(ED).second) return true;
-    std::string o = "{\"name\":" + q(U.qualName(ED)) + ",\"file\":" + q(file) + ",\"line\":" + std::to_string(line) + ",\"enumerators\":[";
+    std::string ename = U.qualName(ED);
+    if (const TypedefNameDecl *TD = ED->getTypedefNameForAnonDecl()) ename = U.qualName(TD);
+    std::string o = "{\"name\":" + q(ename) + ",\"file\":" + q(file) + ",\"line\":" + std::to_string(line) + ",\"enumerators\":[";
     bool first = true;
     for (const EnumConstantDecl *E : ED->enumerators()) {
       if (!first) o += ",";
